@@ -157,6 +157,20 @@ theorem heartbeat_commit_rejected {c : Cfg} {l : Local} {file : File} {din : Opt
     simp [r, step, hk, hs, noop, lcUpdate, blcUpdateInstance, commit]
   all_goals (cases h : Desc.get? (din.getD []) c.id <;> simp [h])
 
+/-- `ClaimTokensFor` whose CAS fails (call rejected, empty ring, commit rejected) claims nothing and forgets nothing -/
+theorem claim_failed_keeps {c : Cfg} {l : Local} {file : File} {din : Option Desc} {frm : String} {now : Int} {gen : Gen} {fault : Fault}
+    (hk : c.kind = .LC) (hs : l.started = true) (hfail : fault ≠ .none ∨ din = none) :
+    let r := step c l file din (.claim frm) now gen fault
+    r.l = l ∧ r.file = file ∧ commit din r fault = din ∧ r.ret = .ok := by
+  intro r
+  cases fault with
+  | failBefore => simp [r, step, hk, hs, lcClaim, commit]
+  | failCommit => cases din <;> simp [r, step, hk, hs, lcClaim, commit]
+  | none =>
+    rcases hfail with h | h
+    · exact absurd rfl h
+    · subst h; simp [r, step, hk, hs, lcClaim, commit]
+
 /-! ### the restart procedure reaches ACTIVE -/
 
 def Present (c : Cfg) (st : Option Desc) : Prop := (Desc.get? (st.getD []) c.id).isSome = true
